@@ -55,6 +55,14 @@ def gen_cases(ctx) -> List[Dict[str, Any]]:
                 for ca in (0.05, 0.2, 1.0):
                     for ft in (0.0, 0.05, 0.5):
                         cases.append({"behaviour": b, "exit": e, "moment": "in_flight", "cancel_after": ca, "flight_time": ft})
+    # a request far larger than the pipe buffers, written to a child that may never read it: the writer task is
+    # blocked inside stdin.send() when the context is left
+    big = ["never_read", "flood", "close_stdout"] if ctx.tier == "quick" else \
+        ["never_read", "flood", "close_stdout", "ignore_sigterm", "well_behaved", "close_stdin", "sigterm_slow:0.5"]
+    for b in big:
+        for e in exits:
+            for size in ([1 << 20] if ctx.tier == "quick" else [200_000, 1 << 20, 8 << 20]):
+                cases.append({"behaviour": b, "exit": e, "moment": "in_flight", "payload_bytes": size})
     for b in ("unstartable", "not_executable"):
         for e in ("normal", "cancel"):
             cases.append({"behaviour": b, "exit": e, "moment": "before_first"})
